@@ -130,6 +130,13 @@ class LasAppender:
             self.header.number_of_evlr = len(self.evlrs)
             self.header.start_of_first_evlr = self.dest.tell()
             self.evlrs.write_to(self.dest, as_extended=True)
+            # the EVLRs may have been relocated before their old position (unused
+            # bytes between the points and the EVLRs of the original file): what is left
+            # of the old ones after the new end is not part of the file anymore
+            try:
+                self.dest.truncate()
+            except (OSError, io.UnsupportedOperation, AttributeError):
+                pass
 
     def _write_updated_header(self) -> None:
         pos = self.dest.tell()
